@@ -376,12 +376,14 @@ def _run(scn, d, res, tr):
     if gold["exit"] != 0:
         # the command itself does not run: nothing to interrupt (vacuous for C10)
         res.signature = "golden-failed"
+        res.probe("vacuous_golden_run_failed")
         tr.log("golden_failed", gold["exit"])
         return
     gfiles = gold["files"]
     want = {_fname(scn, u): gfiles.get(_fname(scn, u)) for u in ids}
     if any(v is None for v in want.values()) or set(gfiles) != set(want):
         res.signature = "golden-incomplete"
+        res.probe("vacuous_golden_run_incomplete")
         tr.log("golden_incomplete", sorted(gfiles))
         return
     tr.log("golden", sorted((k, common.sha(v)) for k, v in gfiles.items()))
